@@ -871,13 +871,19 @@ func (x *c02ctx) r2x13() {
 	ic, r := x.ic, x.r
 	info := ic.Info
 	predKinds := x.predicateKinds()
+	rule16, only16 := "R02.16", false
+	if x.rule16 != "" {
+		rule16, only16 = x.rule16, true
+	}
 	nSw, nBad := 0, 0
+	nUns, nBad16 := 0, 0
 	for _, name := range sortedKeys(ic.F) {
 		fi := ic.F[name]
 		if fi.Decl.Body == nil {
 			continue
 		}
 		k := 0
+		k16 := 0
 		ast.Inspect(fi.Decl.Body, func(m ast.Node) bool {
 			sw, ok := m.(*ast.SwitchStmt)
 			if !ok || sw.Tag != nil {
@@ -939,11 +945,46 @@ func (x *c02ctx) r2x13() {
 						left++
 					}
 				}
-				if left == 0 {
+				if left == 0 && !only16 {
 					k++
 					nBad++
 					r.Fail("R02.13", fmt.Sprintf("%s/dead-class-case#%d", name, k), ic.pos(ci.cc.Pos()),
 						"in "+name+" the case "+types.ExprString(ci.cc.List[0])+" can never be taken: every kind its predicates accept is already taken by an earlier case (isInt accepts the unsigned kinds too). Operands of that class are handled as the other class: unsigned values compared or computed as signed, wrong as soon as the top bit is set")
+				}
+				// R02.16: the case takes unsigned kinds: its own statements (nested switches on the
+				// kind decide again) do not read the operand through the signed extractors
+				takesUnsigned := false
+				for kd := range ci.kinds {
+					if !covered[kd] && kindClass[kd] == "uint" {
+						takesUnsigned = true
+					}
+				}
+				if takesUnsigned {
+					nUns++
+					var bad []string
+					for _, st := range ci.cc.Body {
+						ast.Inspect(st, func(q ast.Node) bool {
+							switch y := q.(type) {
+							case *ast.SwitchStmt, *ast.TypeSwitchStmt:
+								return false
+							case *ast.CallExpr:
+								cn := ""
+								if o := calleeOf(info, y); o != nil {
+									cn = canonKey(o.Pkg(), shortKey(objKey(o)))
+								}
+								if extractorClass[cn] == "int" || accessorClass[cn] == "int" || cn == "go/constant.MakeInt64" || cn == "go/constant.Int64Val" {
+									bad = append(bad, types.ExprString(y)+" at "+ic.pos(y.Pos()))
+								}
+							}
+							return true
+						})
+					}
+					if len(bad) > 0 {
+						k16++
+						nBad16++
+						r.Fail(rule16, fmt.Sprintf("%s/unsigned-kinds-read-as-signed#%d", name, k16), ic.pos(ci.cc.Pos()),
+							"in "+name+" the case "+types.ExprString(ci.cc.List[0])+" takes the unsigned kinds (no earlier case has them) and reads the value as a signed integer: "+strings.Join(bad, "; ")+". An unsigned value with the top bit set (uint64 constants >= 1<<63) is read back negative: compared, folded and range-checked as a negative number")
+					}
 				}
 				for kd := range ci.kinds {
 					covered[kd] = true
@@ -956,8 +997,15 @@ func (x *c02ctx) r2x13() {
 		r.Errorf("R02.13: only %d switches over the kind-class predicates found", nSw)
 		return
 	}
-	if nBad == 0 {
+	if nBad == 0 && !only16 {
 		r.Pass("R02.13", "package/no-dead-class-case", "", fmt.Sprintf("%d switches over the kind-class predicates, every case can be taken", nSw))
+	}
+	if nUns < 5 {
+		r.Errorf(rule16+": only %d predicate cases taking unsigned kinds found", nUns)
+		return
+	}
+	if nBad16 == 0 {
+		r.Pass(rule16, "package/unsigned-kinds-never-read-as-signed", "", fmt.Sprintf("%d predicate cases take unsigned kinds, none reads the value through a signed extractor", nUns))
 	}
 }
 
